@@ -198,8 +198,13 @@ def c07_4(R):
     for it in te.items():
         if isinstance(it, Term) and it.kind == "call" and it.dest.local == 0 and call_matches(it, ("PartialOrd::le", "PartialOrd::ge", "PartialOrd::lt", "PartialOrd::gt")):
             a, c = trace(te, it.args[0]), trace(te, it.args[1])
-            shape = "%s(%s,%s)" % (it.callee.split("::")[-1], a.describe().split(".")[-1], c.describe().split(":")[-1])
-    if shape in ("le(expires_at,param#2)", "ge(param#2,expires_at)"):  # expired(&self, now)
+            nm = it.callee.split("::")[-1]
+            lo, hi, strict = {"le": (a, c, False), "ge": (c, a, False), "lt": (a, c, True), "gt": (c, a, True)}[nm]
+
+            def side(x):
+                return "expires_at" if (x.last_field or "").endswith(".expires_at") else ("now" if x.kind == "param" and x.root[1] == 2 and not x.fields else x.describe())
+            shape = "%s %s %s" % (side(lo), "<" if strict else "<=", side(hi))
+    if shape == "expires_at <= now":  # expired(&self, now), in any spelling of the comparison
         R.ok("expired<=>expires_at<=now", te.name, shape)
     else:
         R.fail([te.name, "expired-shape", str(shape)], "Timer::expired is no longer `expires_at <= now` (%s)" % shape, where=te.where(), instance="expired<=>expires_at<=now")
